@@ -70,6 +70,17 @@ def replay_state(st):
             want = ex["corr2"][0] / ex["corr2"][1]
             if abs((2 * mc) ** 2 - want) > 1e-9:
                 bad.append(("C18.mean-correlation", where0, want, (2 * mc) ** 2))
+        # rigid motions and changes of unit far from the lattice's own scale: a translation by 1e5 and a capture unit
+        # of 2^-30 (exact in floating point)
+        if (ex["area2"] >= 0 or ex["zvol"] >= 0) and len(hist) <= 1:
+            vexact = ex["area2"] / 2 if ex["area2"] >= 0 else ex["zvol"]
+            vt = float(dreye.compute_volume(P + 1.0e5))
+            if abs(vt - vexact) > 1e-6 * (1 + vexact):
+                bad.append(("C18.volume-value", dict(translated_by=1e5, **where0), vexact, vt))
+            U = 2.0 ** -30
+            vu = float(dreye.compute_volume(P * U)) / U ** d
+            if abs(vu - vexact) > 1e-9 * (1 + vexact):
+                bad.append(("C18.volume-value", dict(unit="2^-30", **where0), vexact, vu))
         # a planar cloud embedded in 3-D and padded with midpoints (points of its own hull) to more than 32 samples:
         # the hull is the same, so the mean width for the same seed is the same; and its volume within its affine span
         # is the exact area
@@ -111,7 +122,7 @@ def replay_state(st):
             wvec = float(dreye.compute_mean_width(P.copy(), n=500, seed=5, vectorized=True))
             if abs(wloop - wvec) > 1e-9 * (1 + wvec):
                 bad.append(("C18.width-deterministic", dict(loop_vs_vectorized=True, **where0), wvec, wloop))
-        if hist:
+        if hist and base["name"] != "thin":      # (the thin cloud's volumes exceed the fixed-point budget of the trace spec)
             Q = seq[-2]
             vol0 = float(dreye.compute_volume(Q.copy()))
             wid0 = float(dreye.compute_mean_width(Q.copy(), n=4000, seed=11))
